@@ -15,10 +15,13 @@ LIFETIME_US = 1_000_000
 STATUS_POOL = [200, 200, 200, 201, 400, 403, 404, 409, 501, 503]
 CP_FIELDS = {      # name -> (type, kind)
     'face_id': (0x69, 'int'), 'uri': (0x72, 'str'), 'local_uri': (0x81, 'str'), 'origin': (0x6f, 'int'),
-    'cost': (0x6a, 'int'), 'capacity': (0x83, 'int'), 'count': (0x84, 'int'), 'flags': (0x6c, 'int'),
-    'mask': (0x70, 'int'), 'expiration_period': (0x6d, 'int'),
+    'cost': (0x6a, 'int'), 'capacity': (0x83, 'int'), 'count': (0x84, 'int'),
+    'base_congestion_mark_interval': (0x87, 'int'), 'default_congestion_threshold': (0x88, 'int'), 'mtu': (0x89, 'int'),
+    'flags': (0x6c, 'int'), 'mask': (0x70, 'int'), 'expiration_period': (0x6d, 'int'),
+    'face_persistency': (0x85, 'enum'),         # 0 persistent, 1 on-demand, 2 permanent; other numbers may be sent too
 }
-CP_ORDER = ['face_id', 'uri', 'local_uri', 'origin', 'cost', 'capacity', 'count', 'flags', 'mask', 'expiration_period']
+CP_ORDER = ['face_id', 'uri', 'local_uri', 'origin', 'cost', 'capacity', 'count', 'base_congestion_mark_interval',
+            'default_congestion_threshold', 'mtu', 'flags', 'mask', 'expiration_period', 'face_persistency']
 
 
 def pfx_comps(prefix):
@@ -33,7 +36,7 @@ def build_cp(prefix, fields):
         if k in fields:
             t, kind = CP_FIELDS[k]
             v = fields[k]
-            body += tlvref.tlv(t, tlvref.nni(v) if kind == 'int' else v.encode())
+            body += tlvref.tlv(t, tlvref.nni(v) if kind in ('int', 'enum') else v.encode())
     return tlvref.tlv(0x68, body)
 
 
@@ -189,6 +192,11 @@ class RegWorld(World):
                 raise HarnessError(f'unknown policy {kind}')
             wire = bytes(enc.make_data([bytes(x) for x in c.name], enc.MetaInfo(freshness_period=1000), content,
                                        signer=DigestSha256Signer()))
+            if pol.get('badsig'):
+                # a reply whose signature does not verify: the legacy front-end checks it (validation failure = the
+                # command failed, without raising), the current one passes every reply
+                self.stats['fault.reply_badsig'] += 1
+                wire = wire[:-1] + bytes([wire[-1] ^ 0x01])
         n = 2 if pol.get('dup') else 1
         if pol.get('dup'):
             self.stats['fault.dup'] += 1
@@ -355,7 +363,10 @@ class RegWorld(World):
                              f'commands sent do not match the calls made: missing {_cnt(miss)}, unexpected {_cnt(extra)}')
         else:
             # once per connection for every route declared so far
+            cut_short = {i for i, r in enumerate(reconnects) if any(o.get('mid_startup') for o in self.scenario['ops'] if o['op'] == 'reconnect')}
             for conn in range(0, self.connection + 1):
+                if conn in cut_short:
+                    continue        # this connection was lost during its start-up registrations
                 conn_cmds = collections.Counter(tuple(c.prefix or ()) for c, e in zip(cmds, [x for x in ev if x['k'] == 'command'])
                                                 if e['conn'] == conn and c.verb == 'register')
                 declared = [r for r in routes if r['conn'] < conn or r['conn'] == -1 or (r['conn'] == conn)]
@@ -399,7 +410,9 @@ class RegWorld(World):
             pol = cmd.policy
             kind = pol.get('kind', 'ok')
             delay = pol.get('delay_us', 100)
-            if kind == 'ok':
+            if kind == 'ok' and pol.get('badsig') and fe != 'v2':
+                exp = {False}
+            elif kind == 'ok':
                 wsl = W_US + 3 * max(self.scenario.get('config', {}).get('wall_ticks', [0]) or [0])
                 exp = {True} if delay < LIFETIME_US - wsl else ({False} if delay > LIFETIME_US + wsl else {True, False})
             else:
@@ -470,7 +483,8 @@ def generate(rng, seed, tier='quick'):
                     break
             used.add(tuple(pfx))
             registered.append(pfx)
-            ops.append({'at': t, 'op': 'register', 'cid': cid, 'prefix': pfx, 'with_handler': True})
+            # (legacy front-end: func=None means "only send the command, attach nothing" - documented)
+            ops.append({'at': t, 'op': 'register', 'cid': cid, 'prefix': pfx, 'with_handler': rng.random() < 0.85})
         else:
             pfx = registered.pop(rng.randrange(len(registered)))
             ops.append({'at': t + (0 if fe == 'v2' else 0), 'op': 'unregister', 'cid': cid, 'prefix': pfx})
@@ -511,11 +525,14 @@ def generate(rng, seed, tier='quick'):
             pol = {'kind': 'garbage', 'hex': rng.choice([None, '', '00', '6500', '65036601c8'[:rng.choice([4, 6, 8])], 'ff', '0801', '6605666f6f',
                                                           bytes(rng.getrandbits(8) for _ in range(rng.randint(1, 12))).hex()]),
                    'delay_us': rng.choice([0, 100])}
+        if pol['kind'] == 'ok' and rng.random() < 0.08:
+            pol['badsig'] = True
         if pol['kind'] != 'silence' and rng.random() < 0.1:
             pol['dup'] = True
             pol['dup_gap_us'] = rng.choice([0, 1, 1000])
         if pol['kind'] == 'ok' and rng.random() < 0.3:
             pol['fields'] = {k: (rng.choice([0, 1, 255, 256, 65536, 2 ** 32, 2 ** 63]) if CP_FIELDS[k][1] == 'int'
+                                 else rng.choice([0, 1, 2, 2, 3, 255]) if CP_FIELDS[k][1] == 'enum'
                                  else rng.choice(['', 'udp4://1.2.3.4:6363', 'unix:///run/nfd.sock', 'tcp6://[::1]:6363']))
                              for k in CP_ORDER if rng.random() < 0.4}
         policies.append(pol)
@@ -535,7 +552,17 @@ def generate(rng, seed, tier='quick'):
             # a route declared while connected: registered at once, and again on every later connection
             ops.append({'at': t_rc, 'op': 'route', 'prefix': ['s', rng.choice(['x', 'y'])]})
             t_rc += 40000 + rng.choice([0, 1, 5000])
-        ops.append({'at': t_rc, 'op': 'reconnect', 'how': rng.choice(['shutdown', 'peer_close'])})
+        mid = False
+        if len(routes_before) >= 2 and rng.random() < 0.3:
+            # the connection is lost while the start-up registrations are still under way (a command is outstanding);
+            # what is judged is the NEXT connection: every declared route once, start-up not aborted
+            mid = True
+            ops = []
+            for pol in policies:
+                pol.clear()
+                pol.update({'kind': 'ok', 'delay_us': rng.choice([20000, 30000])})
+            t_rc = 2000 + rng.choice([1000, 10000, 25000, 35000])
+        ops.append({'at': t_rc, 'op': 'reconnect', 'how': rng.choice(['shutdown', 'peer_close']), 'mid_startup': mid})
         for pol in policies:
             if pol['kind'] == 'silence' or pol.get('delay_us', 0) > 30000:
                 pol.clear()
@@ -585,7 +612,9 @@ def _parse_response_roundtrip(sc, res):
                 bad.append(('name', gn, prefix))
             for k in CP_ORDER:
                 want = fields.get(k)
-                if got.get(k) != want:
+                have = got.get(k)
+                have = getattr(have, 'value', have)         # an Enum member stands for its number
+                if have != want:
                     bad.append((k, got.get(k), want))
         if bad:
             sig = f'C17:parse-response-fields:nfd_mgmt:{bad[0][0]}'
